@@ -200,7 +200,7 @@ def stale_cases(draw):
         "wq": draw(st.sampled_from(sorted(O.QTALL))),
         "aq": draw(st.sampled_from(["none", "none", "qint8", "qfloat8_e4m3fn"])),
         "seed": draw(st.integers(0, 2**20)),
-        "steps": draw(st.lists(st.sampled_from(["forward", "update-big", "update-small", "update-row", "sgd", "forward"]), min_size=2, max_size=6)),
+        "steps": draw(st.lists(st.sampled_from(["forward", "update-big", "update-small", "update-row", "update-data", "update-data-copy", "sgd", "forward", "forward-grad"]), min_size=2, max_size=6)),
     }
     if kind == "linear":
         c["hp"] = {"t": "linear", "i": draw(st.sampled_from([4, 16, 33, 160])), "o": draw(st.integers(1, 6)), "bias": draw(st.booleans())}
@@ -237,9 +237,11 @@ def _exec_stale(case):
     prev_codes = None
     updates = 0
     for st_ in case["steps"]:
-        if st_ == "forward":
-            with torch.no_grad():
+        if st_ in ("forward", "forward-grad"):
+            with torch.set_grad_enabled(st_ == "forward-grad"):
                 y = cut(model, x)
+            if isinstance(y, torch.Tensor):
+                y = y.detach()
             if isinstance(y, Raised):
                 return out.fail(f"stale/forward-raises:{y.type}", y.text)
             # reference: the same functional on a weight quantized NOW from the current float weight
@@ -267,6 +269,11 @@ def _exec_stale(case):
                         qm.weight.add_(torch.randn(qm.weight.shape, generator=g))
                     elif st_ == "update-small":
                         qm.weight.add_(torch.randn(qm.weight.shape, generator=g) * 1e-4)
+                    elif st_ == "update-data":
+                        # the `.data` idiom: in place, same storage, and the autograd version counter is NOT bumped
+                        qm.weight.data.add_(torch.randn(qm.weight.shape, generator=g))
+                    elif st_ == "update-data-copy":
+                        qm.weight.data.copy_(torch.randn(qm.weight.shape, generator=g) * 0.7)
                     else:
                         qm.weight[0].mul_(-3.0)
     out.fingerprint = [kind, case["wq"], case["aq"], case["steps"], case["hp"]]
